@@ -5,7 +5,7 @@ import json, os, sys
 
 ROOT = os.path.dirname(os.path.dirname(os.path.abspath(__file__)))
 
-TECH = "static analysis: repository-specific path / dataflow / provenance / lockset / table rules over go/types + go/ssa (+ VTA call graph), no execution"
+TECH = "static analysis: repository-specific path / dataflow / provenance / lockset / table rules over go/types + go/ssa (+ VTA call graph); paths step into helpers unknown to the rule base; no execution"
 
 NOTE = ("Decides the listed necessary structural conditions on every path / call site / table row of /repo's current source; "
         "it does not decide the runtime behaviour the property quantifies over. Trusted base: go/packages, go/types, go/ssa "
@@ -50,6 +50,28 @@ CLAIMS["C19"] = ("Replies are stored only after classification succeeded (must, 
 
 CLAIMS["C05"] = ("Guarded-by tables checked with a must-hold lockset per instruction for both cache backends and the pipe (about 300 accesses), lock-requiring helpers called with the lock held (requirement propagated), no call made with a mutex held exclusively reaches code that locks the same mutex of the same object again (call graph); check-then-acquire in one critical section; collectors remove only unreferenced, closed, non-current segments; writer continuity; acquire-before-release hand-over; close-before-drop on reset; the snapshot is offered only through the 'whole and continued by its log' predicate; the disk reader rotates to its own right edge; a pinned snapshot keeps its log on every path of the collector. Byte equality under interleavings is not decided.", "3/C05")
 CLAIMS["C08"] = ("Snapshot rename only under written == announced after Sync ≺ Close, the count advancing only after a successful write; the scan ignores temporaries and empty segments; gap truncation before publication keeps the newest run, drops the snapshot, and also compares the snapshot/log joint; with verification enabled segments and completed snapshots are checked on open, the check passing only with equal size and checksum on every path; header finalised before Sync/Close; opening a reader with verification cannot block on the storer's own mutex (re-entrant lock detection over the call graph).", "3/C08")
+
+# rules added after the second round of independent breaking changes (appended to the claims above)
+EXTRA = {
+ "C01": " Each replay path's notion of the target connection's database starts unknown, changes only with selectDB's result, and every change is sent before the next entry.",
+ "C02": " The database-tracking conditions of C01 (a resume must not assume a database); newest-checkpoint selection decided over the nine orderings of (offset, mtime).",
+ "C03": " Listpack back-length table and per-encoding header sizes equal the published format; the stream master entry's field count has one definition; database tracking of the snapshot workers.",
+ "C04": " Recovering frames never re-throw and always assign their error; every reply of a pipelined expanded entry is tested in the iteration that received it.",
+ "C05": " Segment readers are positioned behind the header as the last file operation of opening, logical offsets map to header + (offset - left), GetReader seeks to and reports the requested offset; the disk snapshot commit point (shared with C08).",
+ "C06": " A cache is adopted under a source id only when it holds data written under that id.",
+ "C07": " Re-keying addresses the right records (write new name/id, delete old name/id); the replay starts at the reader's reported position, which is the requested offset; an offset is never queued without its run id (or into a database known to hold it).",
+ "C08": " Only a segment whose size is still open is exempt from verification.",
+ "C09": " Every transactional flush in every iteration is wrapped in MULTI/EXEC.",
+ "C10": " What is forwarded is the filter's projection; rows of multi-key commands equal the published key specifications; the slot function conditions of C11.",
+ "C12": " Encode side: the three sibling encoders frame a bulk argument as '$' / decimal length of the same bytes (at least one digit) / CRLF / bytes / CRLF and a command as '*' / count / arguments.",
+ "C14": " The in-memory resume point comes from the confirmed unit (sync) or the contiguous frontier (pipeline/parallel), also through helpers, and nobody else writes it; the sync-mode start record is decided over the nine orderings of (end offset, mtime).",
+ "C15": " The retry wrapper returns nil only when the last attempt succeeded; the election key derives from the shard master's address and nothing instance-specific.",
+ "C18": " Snapshot units take their slot from the key they write; the static key table names every key of the multi-key commands; the slot function conditions of C11.",
+ "C19": " No transport failure is returned as a reply value with a nil error; Put records every failure it returns and Exec/Dispatch return the recorded error before sending; Exec returns only after every per-node worker has finished.",
+ "C20": " The ignore memo is cleared only when a new key begins; bidirectional replay tolerates BUSYKEY only under ignore (all loop paths).",
+}
+for k, v in EXTRA.items():
+    CLAIMS[k] = (CLAIMS[k][0] + v, CLAIMS[k][1])
 
 NOT_YET = "check not built yet in this revision (planned, see DESIGN.md section 3)"
 
